@@ -10,6 +10,21 @@ STRENGTHENED = {
     "C06-m1": "needed nested `$t(..)` references as arguments in a non-default locale — added to the reference-graph generator",
     "C06-m2": "needed references to subkey groups with and without arguments — added as explicit cases (also caught by C09 through impl≠model)",
     "C08-m2": "needed count variables with distinct values per name in the oracle environment (a renamed count must stay renamed) — fixed in C06's oracle, C08 catches it through the builder fields",
+    "C16-m1": "missed by the first C16 check (reactive observers only in tracked-only sequences): model/spec/harness extended with Memos whose laziness is modelled; caught since",
+    "C16-m2": "missed by the first C16 check (sub-contexts were created directly): provider components over an owner tree added to model, spec and harness; caught since",
+    "C01-m3": "missed at first (C01 judged a key only in the locale defining it): C01 now renders every locale through the implementation's match arms and compares with the source of the effective locale; C03's corpus of inherits maps joined C01's stream",
+    "C01-m4": "missed at first (no references in C01's stream): C01 runs C06's reference graphs and fallback-walk family; rebased onto the repaired `resolve_foreign_key_inner` (4bd75c2)",
+    "C02-m3": "missed at first (probe crates skipped formatted variables): typed values for number/currency/date/time/list, 3 format-diverse locales with an inherits chain, formatted keys null/absent in some locales; all flavours must agree",
+    "C02-m4": "missed at first: same strengthening as C02-m3",
+    "C03-m4": "missed at first (no null plural forms generated): plural-null family added to C03",
+    "C06-m4": "missed at first (literal counts never on a bound): five range shapes with counts on and next to every bound",
+    "C08-m3": "missed at first (chains exposed only the outer variable; expectation read from the implementation's own values): chains expose inner variables, builder fields also judged against the model-resolved values",
+    "C08-m4": "missed at first: literal counts of generated references are moved onto bounds of their target (`retarget_counts`); the unmodelled-identifier filter no longer hides projects with accented text from the model comparison",
+    "C09-m3": "missed at first (no tail-into-cycle inherits map; a hang would have blocked the check): C03's corpus joined C09's stream, line servers are killed after 30 s without an answer",
+    "C09-m4": "missed at first: extension / private-use / variant tags added to the odd locale names of the build-helper stream",
+    "C11-m4": "missed at first (every locale had a string): empty-table locales and namespaces added",
+    "C14-m3": "caught only as a model/implementation disagreement (`no-failing-input-found`) until the specification was strengthened (the same route must serve the new URL); nested empty route segments added to the generator",
+    "C17-m3": "missed at first (namespaces were plain identifiers, expected names read back from the generated code): namespace `user-menu`, names judged against the configuration",
     "C10-m1": "missed at first (different first errors under permutation were tolerated): diagnostics of the post-decoding stages are now required to be identical under permutation, with cyclic / doubly-broken projects in the corpus",
 }
 rows = []
